@@ -270,13 +270,6 @@ func runC15(r *simrt.Run, tier Tier) Outcome {
 		return Violation("C15/recorder-changes-result", "attaching a recorder changes the evaluation result\nonly without: %v\nonly with: %v\n%s", a, b, src)
 	}
 	_ = store2
-	// known hash-conflation domain?
-	{
-		_, hs, _ := DumpStoreH(store, nil)
-		if _, _, ok := HashCollision(hs); ok {
-			return Outcome{Discard: "known:hash-collision"}
-		}
-	}
 	// goals: every fact of the store
 	var goals []ast.Atom
 	for _, p := range store.ListPredicates() {
